@@ -158,7 +158,10 @@ Feats == {"base", "end", "params3", "flags0", "flags63", "flags_lock", "ramp2", 
           \* strings outside ASCII: Latin-1 letters, and characters beyond U+00FF
           "latin1", "wide",
           \* every list with a member repeated
-          "repeats"}
+          "repeats",
+          \* one of two optional neighbours, one half of a pair at its default
+          "pitch_only", "yaw_only", "param3_only", "param2_only", "curve_half", "flex_range_lo", "flex_range_hi", "dcurve_half",
+          "dist_small", "end_zero", "loops_zero"}
 S1 == <<"0.25", "1.0", "DEFAULT", "DEFAULT">>
 S2 == <<"0.75", "0.2", "DEFAULT", "DEFAULT">>
 S3 == <<"1.5", "0.0", "EASE_IN", "HOLD">>
@@ -205,6 +208,17 @@ Vary(e, f) ==
       [] f = "repeats" -> [e EXCEPT !.rel = <<<<"t", "0.2">>, <<"t", "1.0">>, <<"T", "0.2">>>>, !.timing = <<<<"t", "0.2", FALSE>>, <<"t", "0.2", FALSE>>>>,
                                     !.absp = <<<<"p", "0.5">>, <<"p", "0.5">>>>, !.abss = <<<<"s", "0.25">>, <<"s", "1.0">>>>,
                                     !.ramp.ramp = <<S1, S1, S2>>]
+      [] f = "pitch_only" -> [e EXCEPT !.pitch = 1]
+      [] f = "yaw_only" -> [e EXCEPT !.yaw = 0 - 1]
+      [] f = "param3_only" -> [e EXCEPT !.params = <<"p", "", "third">>]
+      [] f = "param2_only" -> [e EXCEPT !.params = <<"", "second", "">>]
+      [] f = "curve_half" -> [e EXCEPT !.ramp.ramp = <<<<"0.25", "1.0", "DEFAULT", "HOLD">>, <<"0.75", "0.2", "EASE_IN", "DEFAULT">>, S1>>]
+      [] f = "flex_range_lo" -> [e EXCEPT !.flex = <<Flex("jaw", TRUE, "0.25", "1.0", <<<<"0.25", "1.0", "DEFAULT", "HOLD">>>>, FALSE, <<>>)>>]
+      [] f = "flex_range_hi" -> [e EXCEPT !.flex = <<Flex("jaw", TRUE, "0.0", "0.75", <<<<"0.25", "1.0", "EASE_IN", "DEFAULT">>>>, TRUE, <<>>)>>]
+      [] f = "dcurve_half" -> [e EXCEPT !.dcurve = <<"DEFAULT", "LINEAR">>]
+      [] f = "dist_small" -> [e EXCEPT !.dist = "0.25"]
+      [] f = "end_zero" -> [e EXCEPT !.end = "0.0", !.start = "-1.0"]
+      [] f = "loops_zero" -> IF e.type = "Loop" THEN [e EXCEPT !.loops = 0 - 1] ELSE e
       [] f = "flag1" -> [e EXCEPT !.flags = 9]
       [] f = "flag2" -> [e EXCEPT !.flags = 2]
       [] f = "flag4" -> [e EXCEPT !.flags = 12]
@@ -227,7 +241,7 @@ SceneOf(events, actors) ==
 ActorOf(name, actv, model, chans) == [name |-> name, active |-> actv, model |-> model, channels |-> chans]
 ChanOf(name, actv, events) == [name |-> name, active |-> actv, events |-> events]
 \* features that only exist in one of the two scene formats are varied there
-TextOnly == {"timing_locked", "dcurve", "pitchyaw", "ramp_edges", "edges_only", "right_edge"}
+TextOnly == {"timing_locked", "dcurve", "pitchyaw", "ramp_edges", "edges_only", "right_edge", "pitch_only", "yaw_only", "dcurve_half"}
 \* the Speak switches independently of one another
 SpeakProduct ==
     {[Ev("Speak") EXCEPT !.cc_type = ct, !.cc_token = tok, !.combined = cb /\ ct # "Disabled", !.gender = g, !.noatten = na] :
@@ -290,6 +304,17 @@ SndCases ==
         chan \in {"CHAN_AUTO", "CHAN_WEAPON", "CHAN_VOICE2", "CHAN_STATIC", "6"},
         lvl \in {<<"SNDLVL_NORM", "SNDLVL_NORM">>, <<"SNDLVL_GUNFIRE", "SNDLVL_GUNFIRE">>, <<"82.5", "82.5">>, <<"SNDLVL_80dB", "90.0">>},
         pitch \in {<<"PITCH_NORM", "PITCH_NORM">>, <<"100.0", "100.0">>, <<"PITCH_LOW", "PITCH_LOW">>, <<"98.0", "105.0">>, <<"PITCH_LOW", "PITCH_HIGH">>}}
+    \cup
+    \* Fields the writer leaves out when they are the default (volume 1, pitch 100), and the pair fields
+    \* in general: both ends default, one end default (either one, number or constant), both other
+    \* and equal, both other and different.
+    {[feat |-> "pairs", v |-> Snd(<<"weapons/pistol/fire1.wav">>, vol, "CHAN_AUTO", lvl, pitch, FALSE, NoStacks)] :
+        vol \in {<<"1.0", "1.0">>, <<"VOL_NORM", "VOL_NORM">>, <<"1.0", "0.5">>, <<"0.5", "1.0">>, <<"VOL_NORM", "0.5">>, <<"0.5", "VOL_NORM">>,
+                 <<"1.0", "VOL_NORM">>, <<"0.5", "0.5">>, <<"0.25", "0.75">>},
+        lvl \in {<<"SNDLVL_NORM", "SNDLVL_NORM">>, <<"SNDLVL_NORM", "SNDLVL_80dB">>, <<"SNDLVL_80dB", "SNDLVL_NORM">>, <<"75.0", "SNDLVL_NORM">>,
+                 <<"82.5", "82.5">>, <<"82.5", "90.0">>},
+        pitch \in {<<"100.0", "100.0">>, <<"PITCH_NORM", "PITCH_NORM">>, <<"100.0", "PITCH_NORM">>, <<"95.0", "100.0">>, <<"100.0", "120.0">>,
+                   <<"PITCH_LOW", "PITCH_NORM">>, <<"PITCH_NORM", "PITCH_HIGH">>, <<"PITCH_NORM", "110.0">>, <<"99.0", "101.0">>, <<"101.0", "101.0">>}}
     \cup
     {[feat |-> "stacks", v |-> Snd(snd, vp[1], "CHAN_AUTO", <<"SNDLVL_NORM", "SNDLVL_NORM">>, vp[2], force, <<a, b, c>>)] :
         snd \in SndSounds, vp \in {<<<<"VOL_NORM", "VOL_NORM">>, <<"PITCH_NORM", "PITCH_NORM">>>>, <<<<"0.5", "0.5">>, <<"95.0", "110.0">>>>},
